@@ -173,6 +173,25 @@ def gen_read(rng, cfg, aseq_norm, short_bias=False):
     return rnd_seq(rng, L, alpha_r)
 
 
+def expected_attrs(cfg):
+    """What the configuration documents, independent of the object under test: normalised sequence, whether adapter
+    wildcards are in effect, read wildcards, indels, error rate (an absolute number is divided by the non-N bases)."""
+    seq = R.normalize_adapter(cfg["seq"])
+    non_n = len(seq) - seq.count("N")
+    e = cfg["max_errors"]
+    rate = e / non_n if e >= 1 else e
+    return dict(seq=seq, aw=bool(cfg["aw"]) and not set(seq) <= set("ACGT"), rw=bool(cfg["rw"]), indels=bool(cfg["indels"]), rate=rate)
+
+
+def attr_problems(cfg, ad):
+    """The built adapter must carry the configured search parameters (else every later verdict would be judged
+    against the wrong rule)."""
+    ex = expected_attrs(cfg)
+    got = dict(seq=ad.sequence, aw=bool(ad.adapter_wildcards), rw=bool(ad.read_wildcards), indels=bool(ad.indels), rate=ad.max_error_rate)
+    return [f"{k}: adapter has {got[k]!r}, configured {ex[k]!r}" for k in ex
+            if (abs(got[k] - ex[k]) > 1e-12 if k == "rate" else got[k] != ex[k])]
+
+
 def match_tuple(mt):
     return (mt.astart, mt.astop, mt.rstart, mt.rstop, mt.score, mt.errors)
 
@@ -190,7 +209,8 @@ def case_dict(cfg, read):
 def check_reported_match(cfg, ad, read, mt):
     """Return list of (clause, text) problems for a reported match (C01)."""
     problems = []
-    aseq = ad.sequence
+    ex = expected_attrs(cfg)
+    aseq = ex["seq"]
     m, n = len(aseq), len(read)
     a0, a1, r0, r1, score, err = match_tuple(mt)
     if not (0 <= a0 <= a1 <= m and 0 <= r0 <= r1 <= n):
@@ -201,9 +221,9 @@ def check_reported_match(cfg, ad, read, mt):
     want_overlap = m if cfg["type"] in ("prefix", "suffix") else min(cfg["min_overlap"], m)
     if a1 - a0 < want_overlap:
         problems.append(("min-overlap", f"{a1-a0} adapter bases aligned < {want_overlap}"))
-    eq = R.make_eq(ad.adapter_wildcards, ad.read_wildcards)
+    eq = R.make_eq(ex["aw"], ex["rw"])
     aseg, rseg = aseq[a0:a1], read[r0:r1]
-    if ad.indels:
+    if ex["indels"]:
         d = R.edit_distance(aseg, rseg, eq)
     elif len(aseg) != len(rseg):
         problems.append(("no-indels-length", f"indels disabled but |a|={len(aseg)} |r|={len(rseg)}"))
@@ -212,9 +232,9 @@ def check_reported_match(cfg, ad, read, mt):
         d = R.hamming(aseg, rseg, eq)
     if d is not None and d != err:
         problems.append(("error-count", f"reported {err} errors, reference distance {d} for {aseg!r} vs {rseg!r}"))
-    eff = R.effective_len(aseq, a0, a1, ad.adapter_wildcards)
-    if err > ad.max_error_rate * eff:
-        problems.append(("tolerance", f"{err} errors > {ad.max_error_rate} * {eff}"))
+    eff = R.effective_len(aseq, a0, a1, ex["aw"])
+    if err > ex["rate"] * eff:
+        problems.append(("tolerance", f"{err} errors > {ex['rate']} * {eff}"))
     return problems
 
 
@@ -230,20 +250,21 @@ def admissible_occurrence(cfg, ad, read):
     clause: 'ungapped' (indels off: any admissible ungapped occurrence),
             'gapped' (indels on, types that cannot skip the adapter start),
             'exact' (all types: an error-free admissible occurrence)."""
-    aseq = ad.sequence
-    eq = R.make_eq(ad.adapter_wildcards, ad.read_wildcards)
+    ex = expected_attrs(cfg)
+    aseq = ex["seq"]
+    eq = R.make_eq(ex["aw"], ex["rw"])
     t = cfg["type"]
     fa = cfg.get("fa", False)
     # documented rule, not the object's attribute: anchored = full length; a larger value is reduced to the length
     mo = len(aseq) if t in ("prefix", "suffix") else min(cfg["min_overlap"], len(aseq))
-    if not ad.indels:
-        occ = next(R.admissible_ungapped(t, aseq, read, ad.max_error_rate, mo, eq, ad.adapter_wildcards, fa), None)
+    if not ex["indels"]:
+        occ = next(R.admissible_ungapped(t, aseq, read, ex["rate"], mo, eq, ex["aw"], fa), None)
         return ("ungapped", occ) if occ else None
     if t in NO_START_SKIP and not fa:
-        occ = R.exists_gapped_no_adapter_start_skip(t, aseq, read, ad.max_error_rate, mo, eq, ad.adapter_wildcards)
+        occ = R.exists_gapped_no_adapter_start_skip(t, aseq, read, ex["rate"], mo, eq, ex["aw"])
         return ("gapped", occ) if occ else None
     occ = next(
-        (o for o in R.admissible_ungapped(t, aseq, read, ad.max_error_rate, mo, eq, ad.adapter_wildcards, fa) if o[4] == 0),
+        (o for o in R.admissible_ungapped(t, aseq, read, ex["rate"], mo, eq, ex["aw"], fa) if o[4] == 0),
         None,
     )
     return ("exact", occ) if occ else None
@@ -255,8 +276,9 @@ def check_exact_copy_clauses(cfg, ad, read, mt):
     t = cfg["type"]
     if cfg.get("fa"):
         return problems, False
-    aseq = ad.sequence
-    eq = R.make_eq(ad.adapter_wildcards, ad.read_wildcards)
+    exa = expected_attrs(cfg)
+    aseq = exa["seq"]
+    eq = R.make_eq(exa["aw"], exa["rw"])
     ex = R.exact_full_copies(aseq, read, eq)
     if not ex:
         return problems, False
